@@ -40,6 +40,7 @@ SELFTEST = [
     {"mutation": "Stream::poll_close sends StopSending", "caught_by": "stream/poll_close announces Fin"},
     {"mutation": "Stream::poll_read: n = read_buffer.len() (not min with buf.len())", "caught_by": "nopanic/poll_read copy length is min(read_buffer.len(), buf.len())"},
     {"mutation": "Stream::poll_close: handle_inbound_flag(Reset) inserted between the barrier and write_closed()", "caught_by": "stream/no state mutation between close_write_barrier and write_closed"},
+    {"mutation": "(neutral, must stay silent) /verif/neutral/mux: 08/09.diff (reordered arms, added trace events), read_barrier `?` -> match", "caught_by": "silent"},
 ]
 
 R, M = ("Requested", {}), ("MessageSent", {})
@@ -207,7 +208,9 @@ def check(ctx):
         arms = {}
         for meth in (sent, done):
             for s in body.call_sites(r"stream::state::State::%s$" % meth):
-                labs = [l for t, ls, _, c in body.guards_on_all_paths(s.bb) if t.startswith("discr(") and t.endswith("@Continue.0@Some.0)") and ("State::%s(" % barrier) in t for l in ls]
+                bsites = body.call_sites(r"stream::state::State::%s$" % barrier)
+                labs = [l for t, ls, d_, c in body.guards_on_all_paths(s.bb) for l in ls if l in ("Requested", "MessageSent") and bsites
+                        and (lib_mux._core_call(c) or (0, 0, 0, -1))[3] in lib.bbs(bsites)]
                 for l in labs:
                     arms.setdefault(l, []).append(meth)
         ok_all, detail = True, []
@@ -268,9 +271,10 @@ def check(ctx):
         for s in callers:
             b = s.body
             ctx.use(b)
-            ctx.guarded("stream", "%s only on the %s arm" % (meth, arm), s,
-                        lambda c, r, l, barrier=barrier, arm=arm: l == arm and r.startswith("discr(") and r.endswith("@Continue.0@Some.0)") and ("State::%s(" % barrier) in r, "%s() returned Some(%s)" % (barrier, arm))
             bs = b.call_sites(r"stream::state::State::%s$" % barrier)
+            ae = set().union(*[lib_mux.result_edges(b, x, {arm}) for x in bs]) if bs else set()
+            okg = bool(ae) and b.must_pass_edges(s.bb, ae)
+            ctx.ob("stream", "%s only on the %s arm" % (meth, arm), okg, s.loc(), ("guard present on all paths: " if okg else "a path reaches this site without the guard: ") + "%s() returned Some(%s)" % (barrier, arm))
             if len(bs) == 1:
                 region = b.reachable(b.succ[bs[0].bb], stop_nodes=[s.bb, bs[0].bb]) - {s.bb, bs[0].bb}
                 bad = [x for x in b.call_sites(MUT) if x.bb in region and s.bb in b.reachable([x.bb], stop_nodes=[bs[0].bb])]
@@ -279,10 +283,15 @@ def check(ctx):
             else:
                 ctx.ob("stream", "no state mutation between %s and %s" % (barrier, meth), False, s.loc(), "%d barrier calls" % len(bs))
     # poll_read
-    pr = ctx.body(W, r"^libp2p_webrtc_utils::<stream::Stream as futures::AsyncRead>::poll_read$")
+    pr = lib_mux.canon_args(ctx.body(W, r"^libp2p_webrtc_utils::<stream::Stream as futures::AsyncRead>::poll_read$"), ["self", "cx", "buf"])
+
+    def NS(t):
+        return lib_mux.norm_self(t)
     rb = pr.call_sites(r"stream::state::State::read_barrier$")
     ctx.floor("stream", "read_barrier in poll_read", rb, 1, exact=True)
-    okr = lib.switch_edges_on_site(pr, rb[0], {"Continue"})
+    if not rb:
+        raise mir.RuleError("Stream::poll_read: no read_barrier call")
+    okr = lib_mux.ok_edges(pr, rb[0])
     io = pr.call_sites(r"^libp2p_webrtc_utils::stream::io_poll_next$") + pr.call_sites(r"bytes::Bytes::split_to$")
     ctx.floor("stream", "socket read + buffer hand-out in poll_read", io, 2)
     flags = pr.call_sites(r"stream::state::State::handle_inbound_flag$")
@@ -292,12 +301,14 @@ def check(ctx):
         ctx.ob("stream", "poll_read: %s only after read_barrier returned Ok" % nm, bool(okr) and pr.must_pass_edges(s.bb, okr), s.loc(), "dominated by the `?`-Continue edge of read_barrier")
         back = pr.reachable([x for f in flags for x in pr.succ[f.bb]], blocked_nodes=[rb[0].bb])
         ctx.ob("stream", "read_barrier re-evaluated after every inbound flag (before %s)" % nm, s.bb not in back, s.loc(), "no path from handle_inbound_flag to this site avoids read_barrier")
-    ctx.ob("stream", "poll_read checks the barrier on the live state", render(pr.site_expr(rb[0])[2][0]).endswith("(self).state"), rb[0].loc(), render(pr.site_expr(rb[0])[2][0]))
+    ctx.ob("stream", "poll_read checks the barrier on the live state", NS(render(pr.site_expr(rb[0])[2][0])) == "this.state", rb[0].loc(), render(pr.site_expr(rb[0])[2][0]))
     # poll_write
-    pw = ctx.body(W, r"^libp2p_webrtc_utils::<stream::Stream as futures::AsyncWrite>::poll_write$")
+    pw = lib_mux.canon_args(ctx.body(W, r"^libp2p_webrtc_utils::<stream::Stream as futures::AsyncWrite>::poll_write$"), ["self", "cx", "buf"])
     wb = pw.call_sites(r"stream::state::State::write_barrier$")
     ctx.floor("stream", "write_barrier in poll_write", wb, 1, exact=True)
-    okw = lib.switch_edges_on_site(pw, wb[0], {"Continue"})
+    if not wb:
+        raise mir.RuleError("Stream::poll_write: no write_barrier call")
+    okw = lib_mux.ok_edges(pw, wb[0])
     ss = pw.call_sites(r"Sink>::start_send$|SinkExt::start_send_unpin$")
     ctx.floor("stream", "start_send in poll_write", ss, 1)
     wflags = pw.call_sites(r"stream::state::State::handle_inbound_flag$")
@@ -308,7 +319,8 @@ def check(ctx):
         e = render(pw.site_expr(s)[2][1])
         ctx.ob("stream", "poll_write sends a data message without flags", "Message{flag: std::option::Option::None{}, message: std::option::Option::Some{0: " in e, s.loc(), e[-120:][:120])
     for s in wflags + pw.call_sites(r"^libp2p_webrtc_utils::stream::io_poll_next$"):
-        ctx.guarded("stream", "poll_write drains inbound messages only while the read half is closed", s, lambda c, r, l: l == "true" and "State::read_flags_in_async_write(" in r, "state.read_flags_in_async_write()")
+        ctx.guarded("stream", "poll_write drains inbound messages only while the read half is closed", s,
+                    lambda c, r, l: "State::read_flags_in_async_write(" in r and ((l == "true" and not r.startswith("Not(")) or (l == "false" and r.startswith("Not("))), "state.read_flags_in_async_write()")
     # close flags
     for body, flag in ((pc, "Fin"), (pcr, "StopSending")):
         sends = body.call_sites(r"SinkExt::start_send_unpin$|Sink>::start_send$")
@@ -316,7 +328,9 @@ def check(ctx):
         for s in sends:
             e = render(body.site_expr(s)[2][1])
             ctx.ob("stream", "%s announces %s" % (body.short.split("::")[-1], flag), ("message::Flag::%s::" % flag) in e and "message: std::option::Option::None{}" in e, s.loc(), e[:160])
-            ctx.guarded("stream", "%s: the flag is sent once, on the Requested arm" % body.short.split("::")[-1], s, lambda c, r, l: l == "Requested" and r.endswith("@Continue.0@Some.0)"), "barrier returned Some(Requested)")
+            bsx = body.call_sites(r"stream::state::State::close_(read|write)_barrier$")
+            re_ = set().union(*[lib_mux.result_edges(body, x, {"Requested"}) for x in bsx]) if bsx else set()
+            ctx.ob("stream", "%s: the flag is sent once, on the Requested arm" % body.short.split("::")[-1], bool(re_) and body.must_pass_edges(s.bb, re_), s.loc(), "barrier returned Some(Requested)")
 
     # ---------------------------------------------------------------- panic inventory of the entry points
     entries = [pr, pw, pc, pcr, ctx.body(W, r"^libp2p_webrtc_utils::<stream::Stream as futures::AsyncWrite>::poll_flush$"), ctx.body(W, r"^libp2p_webrtc_utils::stream::io_poll_next$")]
@@ -328,25 +342,37 @@ def check(ctx):
         "slice": (1, "copy_from_slice of two slices of length n"),
         "buf": (1, "read_buffer.split_to(n), n <= read_buffer.len()"),
     }, seen_b)
-    N = "std::cmp::min(bytes::Bytes::len(<std::pin::Pin as std::ops::Deref>::deref(self).read_buffer), core::slice::len(buf))"
+    md = prog.const(W, r"stream::MAX_DATA_LEN$").get("v")
     mir.RENDER_MAX[0], old = 40, mir.RENDER_MAX[0]
     try:
+        # n = the amount split off the read buffer; must be min(read_buffer.len(), buf.len())
+        N = None
         for b, k, det, s in inv:
-            r = render(b.site_expr(s)) if s.si is None else ""
             if b is pr and k == "buf":
-                ctx.ob("nopanic", "poll_read copy length is min(read_buffer.len(), buf.len())", r == "bytes::Bytes::split_to(<std::pin::Pin as std::ops::DerefMut>::deref_mut(self).read_buffer, %s)" % N, s.loc(), r[-150:])
+                e = pr.site_expr(s)
+                N = NS(render(e[2][1]))
+                isn = lib_mux.is_min_of(e[2][1], lambda x: NS(render(x)) == "bytes::Bytes::len(this.read_buffer)", lambda x: render(x) == "core::slice::len(buf)")
+                ctx.ob("nopanic", "poll_read copy length is min(read_buffer.len(), buf.len())", isn and NS(render(e[2][0])) == "this.read_buffer", s.loc(), NS(render(e))[-150:])
+        for b, k, det, s in inv:
+            r = NS(render(b.site_expr(s))) if s.si is None else ""
+            if b is pr and k == "buf":
+                pass
             elif b is pr and k == "index":
-                ok = r == "core::slice::index::index_mut(buf, std::ops::Range::Range{start: 0, end: %s})" % N or r.endswith("std::ops::RangeFull::RangeFull{})")
+                ok = N is not None and (r in ("core::slice::index::index_mut(buf, std::ops::Range::Range{start: 0, end: %s})" % N, "core::slice::index::index_mut(buf, std::ops::RangeTo::RangeTo{end: %s})" % N) or r.endswith("std::ops::RangeFull::RangeFull{})"))
                 ctx.ob("nopanic", "poll_read slices buf[0..n] and data[..] only", ok, s.loc(), r[-120:])
             elif b is pr and k == "slice":
-                ctx.ob("nopanic", "poll_read copies n bytes into buf[0..n]", ("index_mut(buf, std::ops::Range::Range{start: 0, end: %s})" % N) in r and ("split_to(<std::pin::Pin as std::ops::DerefMut>::deref_mut(self).read_buffer, %s)" % N) in r, s.loc(), r[-100:])
+                ctx.ob("nopanic", "poll_read copies n bytes into buf[0..n]", N is not None and ("end: %s})" % N) in r and ("split_to(this.read_buffer, %s)" % N) in r, s.loc(), r[-100:])
             elif b is pw and k == "index":
-                ctx.ob("nopanic", "poll_write slices buf[0..min(buf.len(), MAX_DATA_LEN)]", r == "core::slice::index::index(buf, std::ops::Range::Range{start: 0, end: std::cmp::Ord::min(core::slice::len(buf), const:libp2p_webrtc_utils::stream::MAX_DATA_LEN)})", s.loc(), r[-140:])
+                e = b.site_expr(s)
+                rng = e[2][1] if len(e[2]) == 2 else ("unknown", "?")
+                end = dict(rng[4]).get("end") if rng[0] == "agg" else None
+                ok = render(e[2][0]) == "buf" and end is not None and lib_mux.is_min_of(end, lambda x: render(x) == "core::slice::len(buf)", lambda x: lib_mux.cval(x) == md) and (dict(rng[4]).get("start") is None or lib_mux.cval(dict(rng[4])["start"]) == 0)
+                ctx.ob("nopanic", "poll_write slices buf[0..min(buf.len(), MAX_DATA_LEN)]", ok, s.loc(), r[-140:])
             elif k == "unwrap":
                 wc = pc.call_sites(r"stream::state::State::write_closed$")
                 ctx.ob("nopanic", "the only expect() is the drop-notifier take right after write_closed()", b is pc and "to not close twice" in r and bool(wc) and pc.dominates(wc[0].bb, s.bb), s.loc(), r[-120:])
             elif k == "panic" and b is pr:
-                ctx.guarded("nopanic", "debug assertion in poll_read sits on the empty-buffer path", s, lambda c, rr, l: l == "true" and rr == "bytes::Bytes::is_empty(<std::pin::Pin as std::ops::Deref>::deref(self).read_buffer)", "read_buffer.is_empty() at loop entry")
+                ctx.guarded("nopanic", "debug assertion in poll_read sits on the empty-buffer path", s, lambda c, rr, l: l == "true" and lib_mux.norm_self(rr) == "bytes::Bytes::is_empty(this.read_buffer)", "read_buffer.is_empty() at loop entry")
             elif k == "panic":
                 ctx.ob("nopanic", "panic sites outside poll_read belong to the State transition methods", b.short.split("::")[-1] in trans, s.loc(), b.short)
     finally:
